@@ -254,6 +254,8 @@ def check_expr(te, pts):
                         "detail": {"expr": str(xe), "once": str(r), "twice": str(r2)}})
     except AssertionError as ex:
         out.append({"what": "canonicalize_expr raises AssertionError", "detail": "on its own output " + str(r), "klass": KNOWN_ASSERT})
+    except Exception as ex:      # e.g. RecursionError: a failure with this input, not a crash of the search
+        out.append({"what": "canonicalize_expr raises", "detail": "on its own output " + str(r) + ": " + repr(ex)[:200], "klass": None})
     return out
 
 
@@ -278,7 +280,10 @@ def l2(ctx, deep):
         ctx.count({"part": PART, "L2map": str(m)}, True, f"l2map{ts}", "L2:canonicalize_map")
         try:
             rm = ca.canonicalize_map(m)
-        except AssertionError:
+        except Exception as ex:   # any exception of the implementation (AssertionError, RecursionError, ...) on a generated map
+            fails.append({"part": PART, "what": "canonicalize_map raises", "input": {"map": ts},
+                          "detail": {"map": str(m), "exception": repr(ex)[:200]},
+                          "klass": KNOWN_ASSERT if isinstance(ex, AssertionError) else None})
             continue
         if (rm.num_dims, rm.num_symbols, len(rm.results)) != (3, 1, len(ts)):
             fails.append({"part": PART, "what": "canonicalize_map changes the signature", "input": {"map": ts}, "detail": str(rm), "klass": None})
@@ -311,7 +316,26 @@ def replay(ctx, f):
         print("expression:", to_xdsl(te))
         res = check_expr(te, points(random.Random(0), 50))
     else:
-        res = [f]
+        # canonicalize_map on the recorded result expressions: re-run on the implementation
+        from snaxc.util import canonicalize_affine as ca
+        ts = [_tuplify(t) for t in f["input"]["map"]]
+        m = _x().AffineMap(3, 1, tuple(to_xdsl(t) for t in ts))
+        print("map:", m)
+        res = []
+        try:
+            rm = ca.canonicalize_map(m)
+            if (rm.num_dims, rm.num_symbols, len(rm.results)) != (3, 1, len(ts)):
+                res.append({"what": "canonicalize_map changes the signature", "detail": str(rm)})
+            for (d, s) in points(random.Random(0), 50):
+                try:
+                    v0 = m.eval(d, s)
+                except ZeroDivisionError:
+                    continue
+                if tuple(rm.eval(d, s)) != tuple(v0):
+                    res.append({"what": "canonicalize_map changes the value", "detail": {"canonical": str(rm), "dims": d, "syms": s}})
+                    break
+        except Exception as ex:
+            res.append({"what": "canonicalize_map raises", "detail": repr(ex)[:200]})
     for r in res:
         print("FAIL", r)
     return res
